@@ -461,6 +461,8 @@ def part_builtin_matrix(ctx, tmp):
         if r["front"]["outcome"] != "output" or any(o["outcome"] != "output" for o in runs.values()) or len(runs) < len(MATRIX_CONFIGS):
             continue
         it = by_id[r["id"]]
+        if ".code" in it["src"] or "codehash" in it["src"] or "codesize" in it["src"] or "msg.gas" in it["src"]:
+            continue   # depends on the contract's own bytecode / gas: legitimately differs between the pipelines
         n_prog += 1
         sel = keccak(("f(" + ",".join(M.calldata(it["params"], 0)[0]) + ")").encode())[:4]
         for a, b2 in pairs:
@@ -499,6 +501,7 @@ def classify_rows(ctx, rows, items, part, tag=None):
     by_id = {it["id"]: it for it in items}
     stats = collections.Counter()
     internal = {}
+    examples = {}
     for r in rows:
         it = by_id[r["id"]]
         outs = [r["front"]] + list(r["runs"].values())
@@ -521,6 +524,7 @@ def classify_rows(ctx, rows, items, part, tag=None):
                 if it["how"].startswith("layout-override:"):
                     key = f"C20:layout-override:{o['exc']}:{f}"
                 internal.setdefault(key, (it, name, o))
+                examples.setdefault(key, set()).add(str(it["how"]) + " | " + str(it["base"])[:50])
         if r["id"].startswith("base:") and any(o["outcome"] != "output" for o in outs):
             ctx.violation("correspondence-broken", "an unchanged corpus program does not compile", {"program": it["base"], "outcomes": outs})
         if r["front"]["outcome"] == "output" and part != "env":   # env: the configurations differ in EVM target, rejections are legitimate
@@ -532,10 +536,12 @@ def classify_rows(ctx, rows, items, part, tag=None):
                 k0, o0 = sorted(bad.items())[0]
                 key = f"C20:backend-reject:{o0['exc']}:{o0.get('frame')}"
                 internal.setdefault(key, (it, k0, dict(o0, note="accepted by semantic analysis, rejected by every back-end configuration")))
+                examples.setdefault(key, set()).add(str(it["how"]) + " | " + str(it["base"])[:50])
             if bad and good:
                 k0, o0 = sorted(bad.items())[0]
                 key = f"C20:backend-disagree:{o0['exc']}:{o0.get('frame')}"
                 internal.setdefault(key, (it, k0, dict(o0, note=f"accepted by semantic analysis and compiled by {good}, rejected by {sorted(bad)}")))
+                examples.setdefault(key, set()).add(str(it["how"]) + " | " + str(it["base"])[:50])
     for key, (it, cfgname, o) in sorted(internal.items()):
         ctx.violation("failing-input", f"internal outcome {o['exc']} at {o.get('frame')} ({it['how']} of {it['base']})",
                       {"source": it.get("src") or {"files": it.get("files") if it["how"] != "example" else "/repo/examples", "target": it.get("target")},
@@ -543,6 +549,7 @@ def classify_rows(ctx, rows, items, part, tag=None):
                        "replay": "compile_code(source, settings=Settings(experimental_codegen=<venom>, optimize=<level>, enable_decimals=True))"},
                       key=key)
     part = tag or part
+    ctx.corr[part + "_examples_per_key"] = {k: sorted(v)[:40] for k, v in examples.items()}
     ctx.corr[part + "_distinct_internal"] = sorted(internal)
     ctx.corr[part] = {k: int(v) for k, v in stats.items() if not k.startswith(("diag:", "noloc:"))}
     ctx.corr[part + "_diagnostics_without_location"] = {k[6:]: int(v) for k, v in stats.items() if k.startswith("noloc:")}
